@@ -10,7 +10,8 @@ import vlib
 import compiles
 
 FAMS = ["conv_chain", "single", "unsupported", "mixed_cpu", "diamond", "lut_heavy", "conv_chain_big", "single", "unsupported",
-        "ew_dag", "multi_custom", "weights_heavy", "multi_subgraph"]
+        "ew_dag", "multi_custom", "weights_heavy", "multi_subgraph", "siamese", "siamese:big", "lut_mixed", "memcpy_reshape", "branchy",
+        "mixed_exact", "one_channel_tail", "narrowing_chain", "upscale_chain", "pow2_rescale", "multi_input", "split_conv"]
 
 
 def classify(r):
@@ -32,7 +33,7 @@ def classify(r):
 def run(tier):
     res = vlib.Result("C13", tier, "other")
     b = vlib.build_property("C13")
-    n = 32 if tier == "quick" else 1500
+    n = 50 if tier == "quick" else 2000
     jobs = compiles.corpus_jobs(capture=False) + compiles.plan(FAMS, n, vlib.seed(), tag="c13", capture=False)
     # every single-operator kind and every unsupported-corner kind at least once (twice in thorough)
     import netgen
